@@ -9,8 +9,9 @@ OPS = {'==': '=', '!=': '<>', '>': '>', '>=': '>=', '<': '<', '<=': '<='}
 NUMS = [5, 2.5, -4, 0, 3, 10, 1]
 TEXTS = ['apple', 'APPLE', 'a*', '*an*', '?pple', 'a~*c', 'ab', 'a?', 'b', 'x y', 'a.c', '[a]', 'banana',
          'nan', 'inf', 'Infinity', '1_0', 'e5', '0x1A',        # words float() would take for numbers: they are texts
+         '*"', '"*', '?"', 'a"', '"*"', 'mar', 'Mar', 'March', 'jan', 'Sept', 'mon', 'Saturday',       # quotes at the ends of a pattern; month / weekday names are texts
          'a~~b', '50~~', '~~', 'a~?', '~*~~', 'abc~', '~', 'a*~', ' a', 'a ', ' ', 'x1', 'x1*', 'a2b?']   # blanks inside a criterion text are part of the text                    # ~ escapes itself and the wildcards, with or without a wildcard in the text
-CELLS = [5, 3, 10, 2.5, -4, 0, 'apple', 'Apple', 'banana', 'a*c', 'abc', 'ab', 'a.c', 'axc', '[a]', '', True, False, None, 'NaN', 'nan', 'INF', 'infinity', '1_0', 26, 'a~b', 'a~~b', '50~', '50~~', '~', '~~', 'a?', 'a~?', '*~', '*~~', 'abc~', 'abc', 'ab~', ' a', 'a ', 'a', ' ', '', 'x1', 'x12', 'x1y', 'a2b3']
+CELLS = ['a"', '"b"', 'c" d', '"', 'Mar', 'March', 'mar', 'January', 'JAN', 'Mon', 'saturday', 'Sept', 5, 3, 10, 2.5, -4, 0, 'apple', 'Apple', 'banana', 'a*c', 'abc', 'ab', 'a.c', 'axc', '[a]', '', True, False, None, 'NaN', 'nan', 'INF', 'infinity', '1_0', 26, 'a~b', 'a~~b', '50~', '50~~', '~', '~~', 'a?', 'a~?', '*~', '*~~', 'abc~', 'abc', 'ab~', ' a', 'a ', 'a', ' ', '', 'x1', 'x12', 'x1y', 'a2b3']
 
 
 class _Blank:
